@@ -75,6 +75,18 @@ Example C09_plain_key_example :
   ~ In "station_name_0123456789_a" reserved_keys /\ prefix "comment_" "station_name_0123456789_a" = false.
 Proof. repeat split; try discriminate; try reflexivity. simpl. intuition discriminate. Qed.
 
+(* a comment given as one string is stored under the key "comment" and returned *)
+Theorem C09_string_comment_roundtrip : forall nrow ncol s time author e,
+  okval s = true -> env_ok e ->
+  let c := header2comment (map strip_hash (csvhead nrow ncol (CStr s) (gen_lines time author e))) in
+  lookup "nrow" c = Some (dec_N nrow) /\ lookup "ncol" c = Some (dec_N ncol) /\
+  lookup "comment" c = Some s.
+Proof. exact string_comment_roundtrip. Qed.
+Print Assumptions C09_string_comment_roundtrip.
+
+Example C09_string_comment_example : okval "Random data: run #3 -- ok" = true.
+Proof. reflexivity. Qed.
+
 (* the recorded counts are the decimal numerals of the frame's shape *)
 Theorem C09_recorded_counts_parse_back : forall n,
   option_map N.of_uint (NilZero.uint_of_string (dec_N n)) = Some n.
